@@ -7,3 +7,5 @@ pub mod stubs;
 
 #[cfg(kani)]
 mod c18;
+#[cfg(kani)]
+mod c02;
